@@ -37,6 +37,15 @@ type tierPlan struct {
 	batchTimeout            time.Duration
 }
 
+// procsFor: every fourth worker batch runs with GOMAXPROCS=2 (the tree may look at runtime.GOMAXPROCS or
+// runtime.NumCPU; the simulated schedule is the same either way, `simctl selftest` checks that).
+func procsFor(id int) int {
+	if id%4 == 3 {
+		return 2
+	}
+	return 1
+}
+
 func planFor(tier string) tierPlan {
 	p := tierPlan{plainBatches: 192, plainRuns: 20, raceBatches: 192, raceRuns: 12, minimiseBudget: 90 * time.Second, batchTimeout: 10 * time.Minute}
 	if tier == "thorough" {
@@ -88,11 +97,11 @@ func checkC18(repo, tier string, verifSeed uint64) int {
 	// interleave race and plain batches so that an early stop has seen both
 	for i := 0; i < plan.plainBatches || i < plan.raceBatches; i++ {
 		if i < plan.raceBatches {
-			batches = append(batches, Batch{ID: id, Seed: master.u64(), Runs: plan.raceRuns, Race: true, Tier: tier})
+			batches = append(batches, Batch{ID: id, Seed: master.u64(), Runs: plan.raceRuns, Race: true, Tier: tier, Procs: procsFor(id)})
 			id++
 		}
 		if i < plan.plainBatches {
-			batches = append(batches, Batch{ID: id, Seed: master.u64(), Runs: plan.plainRuns, Race: false, Tier: tier})
+			batches = append(batches, Batch{ID: id, Seed: master.u64(), Runs: plan.plainRuns, Race: false, Tier: tier, Procs: procsFor(id)})
 			id++
 		}
 	}
@@ -265,7 +274,7 @@ func reportViolation(b *Build, fv *foundViolation, verifSeed uint64, plan tierPl
 	if bt.Race {
 		flavour = "race"
 	}
-	rf := &ReplayFile{Property: "C18", VerifSeed: verifSeed, Build: flavour, Violation: r.Viol.Violations, RaceReport: tail(r.RaceLog, 12000)}
+	rf := &ReplayFile{Property: "C18", VerifSeed: verifSeed, Build: flavour, Violation: r.Viol.Violations, RaceReport: tail(r.RaceLog, 12000), Procs: bt.Procs}
 	rdir := filepath.Join(root, "replays")
 	if replaysDir != "" {
 		rdir = replaysDir
@@ -387,7 +396,7 @@ func replayCmd(repo, path string) int {
 			return 2
 		}
 		cb := rf.AloneBatch
-		bt := Batch{Seed: cb.Seed, Runs: cb.Runs, Race: cb.Race, Tier: cb.Tier, NoCold: cb.NoCold, ForceOp: cb.ForceOp}
+		bt := Batch{Seed: cb.Seed, Runs: cb.Runs, Race: cb.Race, Tier: cb.Tier, NoCold: cb.NoCold, ForceOp: cb.ForceOp, Procs: cb.Procs}
 		f, a := aloneDigests(b, bt, rf.AloneRun, true)
 		if f == nil {
 			logf("INFRASTRUCTURE: the batch of the replay file did not complete")
@@ -550,7 +559,7 @@ func checkAlone(b *Build, results []*BatchResult, verifSeed uint64, root string,
 		flavour = "race"
 	}
 	rf := &ReplayFile{Property: "C18", VerifSeed: verifSeed, Build: flavour, Violation: []Violation{v}, Minimised: false,
-		AloneBatch: &CanaryBatch{Seed: bt.Seed, Runs: bt.Runs, Race: bt.Race, Tier: bt.Tier, NoCold: bt.NoCold, ForceOp: bt.ForceOp}, AloneRun: k,
+		AloneBatch: &CanaryBatch{Seed: bt.Seed, Runs: bt.Runs, Race: bt.Race, Tier: bt.Tier, NoCold: bt.NoCold, ForceOp: bt.ForceOp, Procs: bt.Procs}, AloneRun: k,
 		Reproducible: f1.ResHash != a1.ResHash && f2.ResHash != a2.ResHash,
 		Note:         "O8: execute runs 0..alone_run of the batch in one worker process and run alone_run alone in another; the result digests of that run must be equal"}
 	rdir := filepath.Join(root, "replays")
